@@ -989,8 +989,6 @@ func (t *Tree) Compile(file string, args []string, out io.Writer) (err error) {
 			t.warn(fmt.Errorf("illegal node type: %v", n.GetType()))
 		}
 	}
-	dryCompile := true
-
 	compile = func(n *node, ko uint) (labelLast bool) {
 		switch n.GetType() {
 		case TypeRule:
@@ -1128,12 +1126,8 @@ func (t *Tree) Compile(file string, args []string, out io.Writer) (err error) {
 					_print(" '%s'", escape(character.String()))
 				}
 				_print(":")
-				if !dryCompile {
-					sequence.SetParentDetect(true)
-					if class.Len() > 1 {
-						sequence.SetParentMultipleKey(true)
-					}
-				}
+				sequence.SetParentDetect(true)
+				sequence.SetParentMultipleKey(class.Len() > 1)
 				if compile(sequence, done) {
 					_print("\nbreak")
 				}
@@ -1254,11 +1248,12 @@ func (t *Tree) Compile(file string, args []string, out io.Writer) (err error) {
 		} else if t.inline && count == 1 && ko != 0 {
 			continue
 		}
+		expression.SetParentDetect(false)
+		expression.SetParentMultipleKey(false)
 		compile(expression, ko)
 	}
 	_print = printTemp
 	label = 0
-	dryCompile = false
 
 	/* now for the real compile pass */
 	t.PegRuleType = "uint8"
@@ -1312,6 +1307,8 @@ func (t *Tree) Compile(file string, args []string, out io.Writer) (err error) {
 		if t.Ast || labels[ko] {
 			printSave(ko)
 		}
+		expression.SetParentDetect(false)
+		expression.SetParentMultipleKey(false)
 		compile(expression, ko)
 		// print("\n  fmt.Printf(\"%v\\n\")", element.String())
 		if t.Ast {
